@@ -409,6 +409,18 @@ def run(r):
     n = int(os.environ.get("VERIF_CASES", 100 if quick else 800))
     seeds = [r.seed * 100000 + 14 + i for i in range(n)]
     corpus = load_corpus()
+    # handler part (shared exploration with C05): fixtures of an installed plugin are indexed as third-party
+    # and are never listed as project symbols by the real server
+    import C05
+    stdlib = set(core.tables()["stdlib_modules"])
+    hbad, hstats, _ = C05.explore_handlers(r, random.Random(r.seed * 13 + 14), int(os.environ.get("VERIF_H2_WORKSPACES", 6 if quick else 60)), stdlib)
+    hseen = set()
+    for b in hbad:
+        if not any(b["why"].startswith(x) for x in ("workspace symbols", "document symbols", "code lenses are shown", "the fixtures of the installed")) or b["why"] in hseen:
+            continue
+        hseen.add(b["why"])
+        r.violation(dict({"property": PID, "part": "handlers"}, **b), "h2_%d" % len(hseen))
+    r.notes.append("handler part: %s" % json.dumps({k: v for k, v in hstats.items() if k in ("workspaces", "workspace_symbol", "document_symbol")}))
     del HANGS[:]
     trees, codes = run_trees(seeds, corpus)
     listed = runner.listed_classes(PID, CLASS_BITS)
